@@ -119,10 +119,20 @@ class Interp(StmtMixin):
         ob.trace = list(st.trace)
         self.obligations.append(ob)
 
+    def fn(self, name):
+        """list spec function `name`: its recursive definition, or the uninterpreted twin when the contract hides it"""
+        from . import sorts
+        if name in self.c.get("opaque_funcs", ()):
+            return sorts.OPAQUE_FUNCS[name]
+        return getattr(sorts, name)
+
     def feasible(self, st):
+        # path pruning only: the quantifier-free part of the path condition, under a small deterministic resource budget.
+        # (pruning less is always sound: an infeasible path that survives only yields obligations with contradictory hypotheses)
         s = z3.Solver()
         s.set("timeout", 300)
-        s.add(*st.conds)
+        s.set("rlimit", 2_000_000)
+        s.add(*[c for c in st.conds if not z3.is_quantifier(c)])
         return s.check() != z3.unsat
 
     # ------------------------------------------------------------------ coercions
@@ -142,6 +152,8 @@ class Interp(StmtMixin):
                 return Val(Tree.op(v.t), "str")
             if is_ref(ty):
                 return Val(Tree.ref(v.t), ty)
+        if ty == "slist" and v.ty == "sexp":
+            return Val(SExp.items(v.t), "slist")      # guarded by a `cast` obligation (cast_guard)
         if ty == "sexp" and v.ty == "str":
             return Val(SExp.Atom(v.t), "sexp")
         if ty == "sexp" and v.ty == "slist":
@@ -173,6 +185,10 @@ class Interp(StmtMixin):
 
     def cast_guard(self, st, v, ty, line=None):
         """Obligation that a dynamically typed AnyNode.value really has the shape it is used at."""
+        if v.ty == "sexp" and ty == "slist":
+            # an expression handed to a parameter that is iterated as a list of expressions must be a list (not a string)
+            self.oblige(st, "cast", "expression used as a list", SExp.is_Lst(v.t), line)
+            return
         if v.ty != "tree_value":
             return
         g = Tree.is_Num(v.t) if ty == "real" else (Tree.is_Op(v.t) if ty == "str" else Tree.is_Fn(v.t))
@@ -733,7 +749,7 @@ class Interp(StmtMixin):
     def index(self, st, base, idx, node):
         line = getattr(node, "lineno", None)
         if base.ty in ("sexp", "slist") and isinstance(node.slice, ast.Constant) and node.slice.value == 0:
-            from .sorts import sfirst
+            sfirst = self.fn("sfirst")
             if base.ty == "sexp":
                 # x[0] of an atom is its first character (Python): a one-character atom
                 s_atom = st.assume(SExp.is_Atom(base.t))
@@ -760,7 +776,7 @@ class Interp(StmtMixin):
             return
         if base.ty in ("sexp", "slist") and idx.ty == "int":
             # l[i] at a non-negative (symbolic) position of a parsed expression list: snth; an atom indexed like this is a string
-            from .sorts import snth, slen
+            snth, slen = self.fn("snth"), self.fn("slen")
             if base.ty == "sexp":
                 if self.spec_mode:
                     yield st, Val(snth(SExp.items(base.t), idx.t), "sexp")
@@ -890,7 +906,7 @@ class Interp(StmtMixin):
             raise Unsupported("non-constant slice bound")
         lo, hi = bound(sl.lower), bound(sl.upper)
         if base.ty in ("sexp", "slist") and lo == 1 and hi is None:
-            from .sorts import srest
+            srest = self.fn("srest")
             if base.ty == "sexp":
                 s_atom = st.assume(SExp.is_Atom(base.t))
                 if self.feasible(s_atom):
